@@ -148,7 +148,9 @@ def check_collector_history(hist, concurrency, budget, reps):
                         v("stopped-early", "collect returned without starting anything although next_job offered work", i)
             else:
                 eid = ev[1]
-                if first_fail_at is None:
+                if eid == "deadlock-abort":
+                    pass  # the controller broke a deadlock it has already reported
+                elif first_fail_at is None:
                     v("unexpected-exception", "collect raised %r although no sampler call failed" % (eid,), i)
                 else:
                     first = hist[first_fail_at][2]
@@ -231,7 +233,9 @@ def check_batch_history(hist, programs, limit=None):
                 if missing:
                     v("program-not-run", "programs %r were never run" % (missing,), i)
             else:
-                if first_fail_at is None:
+                if ev[1] == "deadlock-abort":
+                    pass
+                elif first_fail_at is None:
                     v("unexpected-exception", "raised %r although no sampler call failed" % (ev[1],), i)
                 elif ev[1] != hist[first_fail_at][2]:
                     v("wrong-exception", "raised %r, first sampler error was %r" % (ev[1], hist[first_fail_at][2]), i)
